@@ -150,7 +150,7 @@ func mustDeref(t types.Type) types.Type {
 
 func isEnginePanic(p interface{}) bool {
 	switch p.(type) {
-	case pathEnd, unsupported, stopSpawn, crashSignal:
+	case pathEnd, unsupported, stopSpawn, killThread, crashSignal:
 		return true
 	case *runtime.TypeAssertionError:
 		return true
